@@ -2,7 +2,8 @@
 for the C05 operation-trace correspondence and fault injection.
 
 ops counted: makedirs, open(for writing), write, close, replace, remove, copy.
-fault = {"op": k, "mode": "exn"|"kill", "scope": "all"|"createoutput"}: operation number k (0-based, in the given scope) fails
+fault = {"op": k, "mode": "exn"|"kill", "scope": "all"|"createoutput"} or a LIST of such (several faults in one run: the
+operation numbers count attempted operations, a failed one included): operation number k (0-based, in the given scope) fails
 BEFORE it takes effect: "exn" raises OSError(ENOSPC), "kill" ends the process at once (os._exit: buffers are lost).
 """
 import builtins
@@ -20,19 +21,27 @@ def install(counter, fault=None):
     counter.setdefault("n", 0)
     counter.setdefault("co", 0)
 
+    faults = [] if fault is None else (fault if isinstance(fault, list) else [fault])
+    for f in faults:
+        f.setdefault("fired", False)
+
     def op(kind, a="", b=""):
         k_all, k_co = counter["n"], counter["co"]
-        hit = False
-        if fault is not None:
-            if fault.get("scope", "all") == "all":
-                hit = (k_all == fault["op"])
-            elif state["in_co"]:
-                hit = (k_co == fault["op"])
-        if hit and not state.get("fired"):
-            state["fired"] = True   # one-shot: the clean-up that follows an injected error is not failed again
-            if fault["mode"] == "kill":
-                os._exit(9)
-            raise OSError(errno.ENOSPC, "injected failure at op %d (%s %s)" % (fault["op"], kind, a))
+        for f in faults:
+            if f["fired"]:
+                continue
+            if f.get("scope", "all") == "all":
+                hit = (k_all == f["op"])
+            else:
+                hit = state["in_co"] and (k_co == f["op"])
+            if hit:
+                f["fired"] = True   # one-shot: the clean-up that follows an injected error is not failed again
+                counter["n"] += 1   # the failed operation was attempted: later faults are indexed after it
+                if state["in_co"]:
+                    counter["co"] += 1
+                if f["mode"] == "kill":
+                    os._exit(9)
+                raise OSError(errno.ENOSPC, "injected failure at op %d (%s %s)" % (f["op"], kind, a))
         counter["n"] += 1
         if state["in_co"]:
             counter["co"] += 1
